@@ -65,6 +65,8 @@ package query
 //@ spec fn claimsOf(from int, to int) []bridgesync.Claim
 //@ spec fn nBridgesOf(from int, to int) int
 //@ spec fn nClaimsOf(from int, to int) int
+// assumed of the syncer's data (A8): every stored claim carries its global index (the column is NOT NULL)
+//@ axiom claimsCarryAGlobalIndex(f int, t int, k int) : (0 <= k && k < nClaimsOf(f, t)) ==> claimsOf(f, t)[k].GlobalIndex != nil @trigger claimsOf(f, t)[k]
 //@ interface github.com/agglayer/aggkit/aggsender/types.L2BridgeSyncer.GetExitRootByIndex (self, ctx, index)
 //@   modifies nothing
 //@   ensures result1 == nil ==> result0.Hash == exitRootAt[index]
